@@ -36,7 +36,7 @@ func init() {
 			{ID: "C03-R4", Title: "bounded native recursion on script-controlled structure", Floor: 3, Run: c03r4},
 			{ID: "C03-R5", Title: "template fragments and expressions are paired", Floor: 1, Run: c03r5},
 			{ID: "C03-R6", Title: "error renderers index and slice only under a length test", Floor: 5, Run: formatterBounds},
-			{ID: "C03-R7", Title: "a channel field is closed at most once", Floor: 5, Run: func(c *core.Ctx) { closeOnce(c, "") }},
+			{ID: "C03-R7", Title: "a channel field is closed at most once", Floor: 2, Run: func(c *core.Ctx) { closeOnce(c, "") }},
 			{ID: "C03-R8", Title: "parse results tested for nil at one site are not stored untested at another", Floor: 1, Run: nilBeliefAcrossCallSites},
 			{ID: "C03-R9", Title: "no method call on the operand of a failed type assertion outside the recover boundary", Floor: 1, Run: failedAssertionOperandUse},
 			{ID: "C03-R10", Title: "lexer functions on the error-construction path index only under a length test", Floor: 1, Run: lexerIndexingGuarded},
@@ -51,7 +51,7 @@ func init() {
 			{ID: "C03-R19", Title: "results of reflect.Value.Interface() are not asserted blindly", Floor: 1, Run: reflectedValuesNotAssertedBlindly},
 			{ID: "C03-R20", Title: "reflect.TypeOf of a handed-in value is guarded against nil", Floor: 1, Run: typeOfGuardedAgainstNil},
 			{ID: "C03-R21", Title: "integers are divided only by tested or constant divisors on the unprotected surface", Floor: 1, Run: integerDivisionGuarded},
-			{ID: "C03-R22", Title: "the visit record is threaded through the recursion", Floor: 3, Run: visitIsThreadedThroughRecursion},
+			{ID: "C03-R22", Title: "the visit record is threaded through the recursion", Floor: 1, Run: visitIsThreadedThroughRecursion},
 			{ID: "C03-R23", Title: "error results are not typed nils", Floor: 1, Run: errorResultsAreNotTypedNils},
 			{ID: "C03-R24", Title: "the lexer does not recurse", Floor: 1, Run: lexerDoesNotRecurse},
 			{ID: "C03-R25", Title: "assertions on the unprotected surface are checked", Floor: 0, Run: assertionsOnTheUnprotectedSurfaceAreChecked},
@@ -60,10 +60,10 @@ func init() {
 			{ID: "C03-R28", Title: "goroutines do not dereference fields that are set to nil elsewhere", Floor: 1, Run: goroutinesDoNotUseWhatIsClearedElsewhere},
 			{ID: "C03-R29", Title: "recover handlers of goroutines do not panic themselves", Floor: 1, Run: recoverHandlersDoNotPanic},
 			{ID: "C03-R30", Title: "nil beliefs hold across functions on the unprotected surface", Floor: 3, Run: nilBeliefsHoldAcrossFunctions},
-			{ID: "C03-R31", Title: "cycles are looked for at every level past the threshold", Floor: 2, Run: cyclesAreLookedForAtEveryLevelPastTheThreshold},
-			{ID: "C03-R32", Title: "the frame table is tested before a call takes the next frame", Floor: 2, Run: theFrameTableIsTestedBeforeItGrows},
+			{ID: "C03-R31", Title: "cycles are looked for at every level past the threshold", Floor: 1, Run: cyclesAreLookedForAtEveryLevelPastTheThreshold},
+			{ID: "C03-R32", Title: "the frame table is tested before a call takes the next frame", Floor: 1, Run: theFrameTableIsTestedBeforeItGrows},
 			{ID: "C03-R33", Title: "the record of a walk over containers goes through the types that wrap them", Floor: 8, Run: theVisitRecordGoesThroughWrappers},
-			{ID: "C03-R34", Title: "nesting counters of the VM are kept on every path", Floor: 2, Run: nestingCountersAreKeptOnEveryPath},
+			{ID: "C03-R34", Title: "nesting counters of the VM are kept on every path", Floor: 1, Run: nestingCountersAreKeptOnEveryPath},
 		},
 	})
 }
